@@ -189,6 +189,12 @@ func (r FileReplacer) Replace(d data.Data, cl Changelog) (*ast.File, error) {
 			return nil, err
 		}
 
+		if _, ok := m.parent.(*ast.StarExpr); ok {
+			if x, ok := give.Interface().(ast.Expr); ok {
+				give = reflect.ValueOf(starOperand(x))
+			}
+		}
+
 		// If the generated value isn't assignable to the target, the match
 		// was too eager. For example, trying to place "foo.Bar"
 		// (SelectorExpr) where only an identifier is allowed (in a variable
